@@ -996,15 +996,27 @@ def predicted_rejections(case):
             for y in text[b]["syms"]:
                 if asm and any(tok == y["name"] for tok in asm.replace(",", " ").replace("(", " ").split()):
                     out.add("branch-to-moved-label")
+        # cfi-at-end: the end of a code block that nothing follows carries CFI directives (the procedure's
+        # .cfi_endproc) and a patch that starts with data is inserted there: the empty block that keeps the
+        # directives can neither join the data nor hand them to a code neighbour (recorded finding)
+        first = next((l.strip() for l in asm.splitlines() if l.strip() and not l.strip().endswith(":")), "")
+        if d["kind"] == "code" and e["op"] != "delete" and e["off"] + e.get("len", 0) == size and \
+                first.split()[:1] and first.split()[0] in (".byte", ".long", ".quad", ".string", ".ascii", ".zero") and \
+                any(k == size and ds for k, ds in (d.get("cfi") or [])):
+            nxt = e["block"] + 1
+            if not (nxt < len(text) and text[nxt].get("_sect") == d.get("_sect") and text[nxt]["kind"] == "code"):
+                out.add("cfi-at-end")
     return out
 
 
-def classify_error(o):
+def classify_error(o, pred=()):
     """Map an exception raised by apply() to one of the classes above (or None)."""
     err, where = o["err"] or "", o["err_where"] or ""
     if err.startswith("AssertionError") and where.endswith("_apply_modifications"):
         return "whole-delete-then-insert"
     if err.startswith("AssertionError") and where.endswith("_cleanup_modified_blocks"):
+        if "cfi-at-end" in pred and "label-at-end" not in pred:
+            return "cfi-at-end"
         return "label-at-end"
     if err.startswith("UnsupportedAssemblyError") and "cannot be data blocks" in err:
         return "branch-to-moved-label"
